@@ -324,7 +324,7 @@ pub fn run(op: &str, a: &[String]) -> Vec<String> {
             };
             vec![au, pa, qu, hex(scheme.as_bytes()), res]
         }
-        _ => panic!("unknown op {op}"),
+        _ => super::ops3::run(op, a),
     }
 }
 
@@ -965,6 +965,62 @@ pub fn generate(prop: &str, thorough: bool, rng: &mut Rng, emit: &mut Emit) {
                 emit("resp.build", vec![s(code), pairs_s(&extra)]);
             }
         }
-        _ => panic!("no generator for {prop}"),
+        "C03" => {
+            for _ in 0..1500 * scale {
+                let sidv = gen_sid(rng);
+                let plen = match rng.below(6) {
+                    0 => 0,
+                    1 => 1,
+                    2 => rng.range(1190, 1210) as usize,
+                    3 => rng.range(60000, 65600) as usize,
+                    _ => rng.range(0, 64) as usize,
+                };
+                let payload = rng.bytes(plen);
+                let size = enc_varint(sidv >> 2).len() + plen;
+                let cap = match rng.below(4) {
+                    0 => size.saturating_sub(1),
+                    1 => size,
+                    2 => size + 1,
+                    _ => rng.below(size as u64 + 3) as usize,
+                };
+                emit("dgram.write", vec![s(sidv), hex(&payload), s(cap)]);
+                let mut b = enc_varint(sidv >> 2);
+                b.extend(&payload);
+                emit("dgram.read", vec![hex(&b)]);
+                if rng.chance(1, 4) {
+                    emit("dgram.read", vec![hex(&truncate_maybe(rng, b))]);
+                }
+            }
+            let qmax = (1u64 << 60) - 1;
+            for q in [0, 1, 63, 64, 16383, 16384, (1 << 30) - 1, 1 << 30, qmax - 1, qmax, qmax + 1, (1u64 << 62) - 1] {
+                emit("ids.qdgram", vec![s(q)]);
+                let mut b = enc_varint(q);
+                b.extend(rng.bytes(5));
+                emit("dgram.read", vec![hex(&b)]);
+            }
+        }
+        "C16" => {
+            emit("settings.rt", vec![s(0), s(0), s(1), s(1), s(1), s(1)]);
+            for _ in 0..300 * scale {
+                let m = gen_header_map(rng, 8);
+                emit("headers.rt", vec![pairs_s(&m)]);
+                emit("qpack.encode", vec![pairs_s(&m)]);
+            }
+            for code in (100..600u64).step_by(if thorough { 1 } else { 13 }) {
+                emit("resp.build", vec![s(code), s("-")]);
+            }
+            for _ in 0..200 * scale {
+                let sidv = gen_sid(rng);
+                emit("frame.write", vec![format!("wt:-:{sidv}"), s(16)]);
+                emit("sh.write", vec![s("wt"), s(sidv), s(16)]);
+                emit("sh.write", vec![s("control"), s(0), s(16)]);
+                let n = rng.range(0, 40) as usize;
+                emit("dgram.write", vec![s(sidv), hex(&rng.bytes(n)), s(64)]);
+            }
+            for v in 0..300u64 {
+                emit("varint.rt", vec![s(v * 7919 % (1 << 20))]);
+            }
+        }
+        _ => super::ops3::generate(prop, thorough, rng, emit),
     }
 }
